@@ -20,7 +20,7 @@ META = {
         "technique": "Lean 4 proof over the regenerated decision function (case analysis, omega); child-process differential matrix",
     },
     "C17": {
-        "text": "Proof: over a model of the seven registry tables whose initial value is regenerated from the source, the invariant 'every level's title maps back to that level' holds initially (decide) and after every history of accepted and refused registrations (induction); refusals are exactly 'value or title in use' and change nothing; name, text and JSON round trips follow for every built-in or registered level; ShortTag(n) is n bytes for 1..5 and panics outside. Correspondence on random registration histories with ~200 lookups after each step.",
+        "text": "Proof: over a model of the seven registry tables whose initial value is regenerated from the source, the invariant 'every level's title maps back to that level' holds initially (decide) and after every history of accepted and refused registrations (induction); refusals are exactly 'value or title in use' and change nothing; a level that has a name, built-in or registered earlier, keeps exactly that name over every later history (names_persist, builtin_names_persist; induction); name, text and JSON round trips follow for every built-in or registered level; ShortTag(n) is n bytes for 1..5 and panics outside. Correspondence on random registration histories with ~200 lookups after each step.",
         "design_ref": "DESIGN.md §7 C17",
         "note": "Trusted: Lean kernel; extractor (tables); fmt %q = strconv.Quote and strconv.Unquote as transcribed in Model/Quote, Model/Unquote (differentially checked); strings.ToLower on ASCII.",
         "technique": "Lean 4 invariant proof by induction over registration histories (decide on regenerated tables); differential random histories",
